@@ -75,6 +75,7 @@ DEF_RULES = [
     ("cycle-self", True, "C1: !record\n  fields:\n    x: C1?\n"),
     ("cycle-alias", True, "C1: C2*\nC2: C1?\n"),
     ("cycle-through-generic", True, "'CG<T>': !record\n  fields:\n    t: T\nC1: !record\n  fields:\n    x: CG<C1>\n"),
+    ("cycle-through-imported-generic", True, "C1: !record\n  fields:\n    x: Lib.LibWrap<C1>\n"),
     ("unused-type-parameter", True, "'U1<T>': int\n"),
     ("unused-type-parameter-record", True, "'U1<T, V>': !record\n  fields:\n    a: T\n"),
     ("reference-to-protocol", True, "PX: !protocol\n  sequence:\n    a: int\nR1: !record\n  fields:\n    p: PX\n"),
@@ -153,6 +154,9 @@ LibRec: !record
   fields:
     x: int
     y: string*
+LibWrap<T>: !record
+  fields:
+    w: T?
 """
 
 
@@ -231,7 +235,8 @@ def run(ctx):
     for rid, named, ty, _ in TYPE_RULES:
         jobs.append(("control", rid, named, embed("alias", ty, "Ctl"), True, "alias", None))
     for rid, named, defs in DEF_RULES:
-        jobs.append(("control", rid, named, defs, False, "def", None))
+        if "Lib." not in defs:
+            jobs.append(("control", rid, named, defs, False, "def", None))
     controls = {}
 
     def run_case(job):
@@ -280,6 +285,12 @@ def run(ctx):
                     continue
                 jobs.append(("inject", rid, named, embed(pos, ty, "Inj"), True, pos, where))
     for rid, named, defs in DEF_RULES:
+        if "Lib." in defs:
+            # needs the import: its control is the same-namespace variant (cycle-through-generic)
+            if controls.get("cycle-through-generic") == "rejected":
+                for where in ("main", "main2", "version"):
+                    jobs.append(("inject", rid, named, defs, False, "def", where))
+            continue
         if controls.get(rid) != "rejected":
             continue
         for where in wheres:
